@@ -92,7 +92,7 @@ SlhDsaPub(pre) == {F(pre \o "version", "version"), F(pre \o "key_value", "opaque
                    F(pre \o "params.hash_type", "enum2"), F(pre \o "params.sig_type", "enum2")}
 HpkePub(pre)   == {F(pre \o "version", "version"), F(pre \o "params", "msg"), F(pre \o "params.kem", "enum7"), F(pre \o "params.kdf", "enum3"),
                    F(pre \o "params.aead", "enum3"), F(pre \o "public_key", "point")}
-EciesGcm == {"ECIES_P256_AES128_GCM"}
+EciesGcm == {"ECIES_P256_AES128_GCM", "ECIES_P384_AES256_GCM", "ECIES_P521_AES256_GCM", "ECIES_X25519_AES256_GCM"}
 EciesCtr == {"ECIES_P256_AES128_CTR_HMAC_SHA256"}
 EciesPub(pre)  == {F(pre \o "version", "version"), F(pre \o "params", "msg"), F(pre \o "params.kem_params", "msg"),
                    F(pre \o "params.kem_params.curve_type", "curve"), F(pre \o "params.kem_params.hkdf_hash_type", "hash"),
@@ -107,7 +107,7 @@ EciesPub(pre)  == {F(pre \o "version", "version"), F(pre \o "params", "msg"), F(
                    FB(pre \o "params.dem_params.aead_dem.value>hmac_key_format.params.hash", "hash", EciesCtr),
                    F(pre \o "params.ec_point_format", "enum3"), F(pre \o "x", "point"), F(pre \o "y", "point")}
 CompEd == {"COMPOSITE_MLDSA65_ED25519"}
-CompEc == {"COMPOSITE_MLDSA65_ECDSA_P256", "COMPOSITE_MLDSA87_ECDSA_P384"}
+CompEc == {"COMPOSITE_MLDSA65_ECDSA_P256", "COMPOSITE_MLDSA87_ECDSA_P384", "COMPOSITE_MLDSA87_ECDSA_P521"}
 \* composite ML-DSA: two nested KeyData (ML-DSA part, classical part); h = "private" / "public"
 Composite(h) ==
   LET ml == "ml_dsa_" \o h \o "_key"   cl == "classical_" \o h \o "_key"
@@ -191,7 +191,8 @@ EcdsaBases == <<"P256_SHA256_DER", "P384_SHA512_P1363", "P384_SHA384_DER", "P521
                 "P384_SHA256_DER", "P521_SHA256_P1363", "P521_SHA384_DER", "P256_SHA1_DER", "P256_SHA224_DER">>      \* last five: hash weaker than curve / SHA-1 / SHA-224
 RsaBases == <<"RSA2048_F4", "RSA1024_F4", "RSA2047_F4", "RSA2048_E3", "RSA2048_E65539">>
 HpkeBases == <<"HPKE_X25519_SHA256_AES128GCM", "HPKE_P256_SHA256_AES256GCM", "HPKE_X25519_SHA256_CHACHA20", "HPKE_P384_SHA384_AES256GCM",
-               "HPKE_P521_SHA512_AES256GCM", "HPKE_XWING_SHA256_AES256GCM", "HPKE_MLKEM768_SHA256_AES256GCM">>
+               "HPKE_P521_SHA512_AES256GCM", "HPKE_XWING_SHA256_AES256GCM", "HPKE_MLKEM768_SHA256_AES256GCM",
+               "HPKE_MLKEM1024_SHA384_AES256GCM">>      \* all seven KEMs: each has its own private/public validation path
 KTBases(t) ==
   CASE t = "AesGcmKey" -> <<"AES128_GCM", "AES256_GCM">>
     [] t = "AesGcmSivKey" -> <<"AES128_GCM_SIV", "AES256_GCM_SIV">>
@@ -213,13 +214,15 @@ KTBases(t) ==
     [] t \in {"Ed25519PublicKey", "Ed25519PrivateKey"} -> <<"ED25519">>
     [] t \in {"RsaSsaPkcs1PublicKey", "RsaSsaPkcs1PrivateKey", "RsaSsaPssPublicKey", "RsaSsaPssPrivateKey",
               "JwtRsaSsaPkcs1PublicKey", "JwtRsaSsaPkcs1PrivateKey", "JwtRsaSsaPssPublicKey", "JwtRsaSsaPssPrivateKey"} -> RsaBases
-    [] t \in {"MlDsaPublicKey", "MlDsaPrivateKey"} -> <<"ML_DSA_65", "ML_DSA_87">>
+    [] t \in {"MlDsaPublicKey", "MlDsaPrivateKey"} -> <<"ML_DSA_65", "ML_DSA_87", "ML_DSA_44">>
     [] t \in {"SlhDsaPublicKey", "SlhDsaPrivateKey"} -> <<"SLH_DSA_SHA2_128F", "SLH_DSA_SHA2_128S", "SLH_DSA_SHAKE_192F">>
-    [] t \in {"CompositeMlDsaPublicKey", "CompositeMlDsaPrivateKey"} -> <<"COMPOSITE_MLDSA65_ED25519", "COMPOSITE_MLDSA65_ECDSA_P256", "COMPOSITE_MLDSA87_ECDSA_P384">>
+    [] t \in {"CompositeMlDsaPublicKey", "CompositeMlDsaPrivateKey"} -> <<"COMPOSITE_MLDSA65_ED25519", "COMPOSITE_MLDSA65_ECDSA_P256", "COMPOSITE_MLDSA87_ECDSA_P384",
+                                                                          "COMPOSITE_MLDSA87_ECDSA_P521">>
     [] t \in {"HpkePublicKey", "HpkePrivateKey"} -> HpkeBases
-    [] t \in {"EciesAeadHkdfPublicKey", "EciesAeadHkdfPrivateKey"} -> <<"ECIES_P256_AES128_GCM", "ECIES_P256_AES128_CTR_HMAC_SHA256">>
+    [] t \in {"EciesAeadHkdfPublicKey", "EciesAeadHkdfPrivateKey"} -> <<"ECIES_P256_AES128_GCM", "ECIES_P256_AES128_CTR_HMAC_SHA256", "ECIES_P384_AES256_GCM",
+                                                                       "ECIES_P521_AES256_GCM", "ECIES_X25519_AES256_GCM">>
     [] t \in {"JwtEcdsaPublicKey", "JwtEcdsaPrivateKey"} -> <<"JWT_ES256", "JWT_ES384", "JWT_ES512">>
-    [] t \in {"JwtMlDsaPublicKey", "JwtMlDsaPrivateKey"} -> <<"JWT_ML_DSA_65">>
+    [] t \in {"JwtMlDsaPublicKey", "JwtMlDsaPrivateKey"} -> <<"JWT_ML_DSA_65", "JWT_ML_DSA_44", "JWT_ML_DSA_87">>
 
 KTTypes == {"AesGcmKey", "AesGcmSivKey", "AesCtrHmacAeadKey", "ChaCha20Poly1305Key", "XChaCha20Poly1305Key", "XAesGcmKey", "AesSivKey",
             "HmacKey", "AesCmacKey", "HmacPrfKey", "HkdfPrfKey", "AesCmacPrfKey", "AesGcmHkdfStreamingKey", "AesCtrHmacStreamingKey",
@@ -229,6 +232,27 @@ KTTypes == {"AesGcmKey", "AesGcmSivKey", "AesCtrHmacAeadKey", "ChaCha20Poly1305K
             "CompositeMlDsaPublicKey", "CompositeMlDsaPrivateKey", "HpkePublicKey", "HpkePrivateKey", "EciesAeadHkdfPublicKey", "EciesAeadHkdfPrivateKey",
             "JwtEcdsaPublicKey", "JwtEcdsaPrivateKey", "JwtRsaSsaPkcs1PublicKey", "JwtRsaSsaPkcs1PrivateKey",
             "JwtRsaSsaPssPublicKey", "JwtRsaSsaPssPrivateKey", "JwtMlDsaPublicKey", "JwtMlDsaPrivateKey"}
+
+(* Mismatched halves.  For every asymmetric PRIVATE key type: the fields that make up its public part and the  *)
+(* fields that make up its private part (base-dependent where the nested key differs).  Replacing ALL fields   *)
+(* of one part by those of ANOTHER valid key of the same configuration gives a key whose halves are each valid *)
+(* but do not belong together; every base (KEM, curve, instance, modulus) has its own validation path.         *)
+RsaSecret == {"d", "p", "q", "dp", "dq", "crt"}
+KTParts(t, b) ==
+  CASE t \in {"EcdsaPrivateKey", "EciesAeadHkdfPrivateKey", "JwtEcdsaPrivateKey"} ->
+         [pub |-> {{"public_key.x", "public_key.y"}, {"public_key.x"}, {"public_key.y"}}, priv |-> {{"key_value"}}]
+    [] t \in {"Ed25519PrivateKey", "MlDsaPrivateKey", "SlhDsaPrivateKey", "JwtMlDsaPrivateKey"} ->
+         [pub |-> {{"public_key.key_value"}}, priv |-> {{"key_value"}}]
+    [] t \in {"RsaSsaPkcs1PrivateKey", "RsaSsaPssPrivateKey", "JwtRsaSsaPkcs1PrivateKey", "JwtRsaSsaPssPrivateKey"} ->
+         [pub |-> {{"public_key.n"}, {"public_key.n", "public_key.e"}}, priv |-> {RsaSecret, {"d"}, {"p", "q"}, {"dp", "dq", "crt"}}]
+    [] t = "HpkePrivateKey" -> [pub |-> {{"public_key.public_key"}}, priv |-> {{"private_key"}}]
+    [] t = "CompositeMlDsaPrivateKey" ->
+         [pub |-> {{"ml_dsa_private_key.value>public_key.key_value"}}
+                  \cup (IF b \in CompEd THEN {{"classical_private_key.value>public_key.key_value"}}
+                        ELSE {{"classical_private_key.value>public_key.x", "classical_private_key.value>public_key.y"}}),
+          priv |-> {{"ml_dsa_private_key.value>key_value"}, {"classical_private_key.value>key_value"}}]
+    [] OTHER -> [pub |-> {}, priv |-> {}]
+KTPrivateTypes == {t \in KTTypes : KTParts(t, KTBases(t)[1]).pub # {}}
 
 \* PRF keys exist only without output prefix; JWT public keys are tried RAW so that a token without "kid" is genuine
 KTPrefix(t) == IF t \in {"HmacPrfKey", "HkdfPrfKey", "AesCmacPrfKey", "JwtRsaSsaPkcs1PublicKey", "JwtRsaSsaPssPublicKey"} THEN "RAW" ELSE "TINK"
